@@ -118,7 +118,20 @@ LinesOK ==
         \* without the escape sequence, joining the lines with newlines gives the string back
         /\ (\A i \in 1..Len(c.s) : c.s[i] # "B") => Join(c.lines) = c.s
 
-Cases == CASE Family = "wf" -> WfCases [] Family = "lines" -> LineCases [] OTHER -> {}
+(***************************************************************************)
+(* Document shapes for the root rule (C02) and pass-through (C03)          *)
+(***************************************************************************)
+Prologs == {"none", "xmldecl", "comment", "pi", "doctype"}
+KidKinds == {"shape", "text-shape", "nested-ns-svg", "nested-plain-svg", "specs", "g", "comment", "defs", "style"}
+KidLists == UNION {[1..k -> KidKinds] : k \in 0..2}
+RootCases ==
+    {[fam |-> "root", prolog |-> p, kids |-> ks, ns |-> n,
+      \* a namespaced root is passed through untouched; otherwise the root is
+      \* synthesised: svg + xmlns + version, single root
+      passthrough |-> n, rootok |-> TRUE] :
+        p \in Prologs, ks \in KidLists, n \in BOOLEAN}
+
+Cases == CASE Family = "wf" -> WfCases [] Family = "lines" -> LineCases [] Family = "root" -> RootCases [] OTHER -> {}
 Init == c \in Cases
 Next == UNCHANGED c
 Spec == Init /\ [][Next]_c
